@@ -73,6 +73,7 @@ int prog_add_signal(prog_t *p, const struct jls_signal_def_s *def, const char *n
 void gen_samples(const psig_t *ps, uint64_t vseed, int64_t sid, uint32_t n, uint8_t *out);
 /* payload of annotation / user data op: returns malloc'd buffer of op->dsize bytes (strings incl. NUL) */
 uint32_t twr_size_arg(uint8_t stype, uint32_t dsize, uint64_t dseed);
+#define PAYLOAD_EMBEDS_CHUNKS 0xE1Bu   /* low 12 bits of a BINARY payload seed (size >= 600): the payload holds complete chunk images */
 uint8_t *gen_payload(uint8_t stype, uint32_t dsize, uint64_t dseed);
 /* one-line JSON description of a program (bounded) */
 void prog_describe(const prog_t *p, jb_t *j, size_t max_ops);
